@@ -21,7 +21,7 @@ PLAN  = {"quick":    {"shards": 16, "cases": 32,  "timeout": 1500, "budget_s": 1
          "thorough": {"shards": 16, "cases": 320, "timeout": 7000, "budget_s": 1500, "points": 400, "mp_every": 25}}
 REQUIRED = ["oracle.resumed==reference", "oracle.no-recorded-triple-reevaluated", "oracle.pending-evaluated-once", "oracle.no-duplicate-record",
             "oracle.from_file==returned", "crash.record-boundary", "crash.inside-record", "crash.gz", "kill.prefix-model-validated",
-            "resume.multiproc"]
+            "resume.multiproc", "big-log.cases"]
 ASSUMPTIONS = ["a killed run leaves a byte-prefix of the log it would have written (validated by the real-kill runs: append only, flush per line, single writer)",
                "only complete records count as recorded; parameter records (E/L/V) may legitimately be written again"]
 
@@ -147,7 +147,13 @@ def check_case(case, ctx=None, only_points=None):
         usable_keys = len(set(key_of.values())) == len(key_of) and all(None not in k for k in key_of.values())
         budget = (ctx.plan.get("points", 60) if ctx is not None else 40)
         mp_every = (ctx.plan.get("mp_every", 40) if ctx is not None else 10**9)
-        points = _crash_points(rng, blob, recs, gz, budget) if only_points is None else only_points
+        if case.get("big") and only_points is None:
+            tail = recs[-4:]
+            points = sorted({(e, "record-boundary") for _, e, _ in tail[:-1]} | {((s_ + e_) // 2, "gz-body" if gz else "inside-record-middle") for s_, e_, _ in tail}
+                            | {(recs[len(recs) // 2][0] + 3, "gz-header" if gz else "inside-record-first")})
+            note("big-log.records", len(recs))
+        else:
+            points = _crash_points(rng, blob, recs, gz, budget) if only_points is None else only_points
         if ctx is not None and ctx.extra.get("n_logs", 0) < 1:
             ctx.sample({"log_bytes": len(blob), "gz": gz, "records": [r[0] for _, _, r in recs], "crash_points": [list(p) for p in points[:12]]})
         if ctx is not None: ctx.extra["n_logs"] = ctx.extra.get("n_logs", 0) + 1
@@ -251,7 +257,25 @@ def check_case(case, ctx=None, only_points=None):
         shutil.rmtree(wd, ignore_errors=True)
     return viol
 
+def big_log_case(rng):
+    """a log with more than 1000 records (buffers / batch sizes inside the sinks and sources): one lambda environment fanned out by
+    shuffle(n=36) x 30 learners x one recording evaluator"""
+    spec = {"groups": [{"kind": "lambda", "n": 2, "seed": 1, "tag": "g0", "filters": [["shuffle_n", 36]]}],
+            "lrns": [{"kind": "stateful-a", "tag": f"L{i}", "seed": 1} for i in range(30)],
+            "vals": [{"kind": "rec", "tag": "V0", "seed": 1, "nrows": 1}], "seed": 1, "triples": "cross"}
+    return {"spec": spec, "gz": rng.random() < .5, "seed": rng.randrange(1 << 30), "big": True}
+
 def run_shard(ctx):
+    if ctx.shard == 0 or (ctx.tier == "thorough" and ctx.shard < 4):
+        case = big_log_case(ctx.rng)
+        # crash points near the end of the log: inside the last records and at their boundaries
+        try:
+            v = check_case(case, ctx)
+            ctx.count("big-log.cases")
+        except Exception as e:
+            import traceback
+            v = [(f"reference-run/raised:{type(e).__name__}/big-log", f"{e} {traceback.format_exc()[-600:]}")]
+        for sig, what in v: ctx.violation(sig + ("/big-log" if not sig.endswith("/big-log") else ""), what, case)
     for i in range(ctx.n):
         if ctx.time_left() <= 0:
             ctx.extra["logs_skipped_for_time"] = ctx.n - i; break
